@@ -30,6 +30,8 @@ pub struct GenCtx {
     /// matrix parts whose entries print a fixed number of numbers: (ordinal of their first number in reading order,
     /// rows, columns, numbers per entry)
     pub shapes: Vec<(usize, usize, usize, usize)>,
+    /// vector parts of two or more entries whose entries print a fixed count of numbers: (ordinal of the first number, entries, numbers per entry)
+    pub vparts: Vec<(usize, usize, usize)>,
     /// dynamic dimensions to use, in order, instead of drawing them (wide and tall matrix parts)
     pub dims_override: Vec<usize>,
 }
@@ -47,7 +49,7 @@ enum Force {
 
 impl GenCtx {
     pub fn new(seed: u64, max_dim: usize, simple: bool, present_permille: u32) -> Self {
-        GenCtx { rng: Rng::new(seed), max_dim, simple, present_permille, counter: 0, force: Force::None, lead: false, presence: vec![], dims: vec![], shapes: vec![], dims_override: vec![] }
+        GenCtx { rng: Rng::new(seed), max_dim, simple, present_permille, counter: 0, force: Force::None, lead: false, presence: vec![], dims: vec![], shapes: vec![], vparts: vec![], dims_override: vec![] }
     }
     fn forced(&mut self) -> Option<f64> {
         let lead = std::mem::replace(&mut self.lead, false);
@@ -221,6 +223,9 @@ where
     if let (Some(k), true) = (T::LEAVES, nr >= 2 && nc >= 2) {
         g.shapes.push((g.counter as usize, nr, nc, k));
     }
+    if let (Some(k), true) = (T::LEAVES, (nr == 1 || nc == 1) && nr * nc >= 2) {
+        g.vparts.push((g.counter as usize, nr * nc, k));
+    }
     // most parts ordinary; some all-zero, all-equal, or with every entry's innermost real part zero
     g.force = match g.rng.below(100) {
         0..=7 => Force::Zero,
@@ -304,11 +309,13 @@ pub struct Subject {
     pub presence: Vec<bool>,
     pub dims: Vec<usize>,
     pub shapes: Vec<(usize, usize, usize, usize)>,
+    /// vector parts of two or more entries whose entries print a fixed count of numbers: (ordinal of the first number, entries, numbers per entry)
+    pub vparts: Vec<(usize, usize, usize)>,
 }
 
 fn make<T: Gen + Send + 'static>(name: &'static str, g: &mut GenCtx) -> Subject {
     let (v, expect) = T::gen(g);
-    Subject { type_name: name, value: Box::new(v), expect, presence: g.presence.clone(), dims: g.dims.clone(), shapes: g.shapes.clone() }
+    Subject { type_name: name, value: Box::new(v), expect, presence: g.presence.clone(), dims: g.dims.clone(), shapes: g.shapes.clone(), vparts: g.vparts.clone() }
 }
 
 type Maker = fn(&'static str, &mut GenCtx) -> Subject;
